@@ -262,8 +262,36 @@ def lists_for(name, universe, recommended):
             ("all", list(universe)), ("subset-with", [rec_other, name] if isinstance(name, str) else [rec_other]), ("subset-without", [rec_other, other])]
 
 
+def run_any_recipient_cell(cell) -> tuple:
+    """General JSON JWE for two recipients, one of which names an algorithm outside the allow-list; the consumer accepts any single
+    recipient (verify_all_recipients=False) and holds the key of the other, perfectly allowed, recipient. The call must still fail:
+    a name outside the list is never skipped over."""
+    from joserfc import jwe
+    from joserfc.errors import UnsupportedAlgorithmError
+    k = K()
+    name, L, order = cell["names"]["alg"], cell["L"], cell["order"]
+    good = {"alg": "A128KW", "key": gk.key_to_record(k["ref"]["oct16"]), "header": {"alg": "A128KW"}, "kid": None}
+    other = {"alg": "A128KW", "key": gk.key_to_record(k["ref"]["oct16"]), "header": {"alg": "A128KW"}, "kid": None}
+    plan = {"ser": "general", "enc": "A128GCM", "zip": None, "plaintext_hex": b"x".hex(), "aad_hex": None, "protected": {"enc": "A128GCM"}, "unprotected": None,
+            "recipients": [good, other] if order == "bad-last" else [other, good], "sender": None, "place": "recipient"}
+    tok, _ = jweplan.ref_encrypt(plan, 3, ("canonical", 0))
+    tok["recipients"][1 if order == "bad-last" else 0]["header"]["alg"] = name      # per-recipient headers are not integrity protected
+    reg = jwe.JWERegistry(algorithms=L, verify_all_recipients=False)
+    try:
+        jwe.decrypt_json(tok, k["obj"]["oct16"], registry=reg)
+        return "must-reject", (f"C05:disallowed-algorithm-used:jwe:decrypt:general-any-recipient:alg",
+                               f"a recipient names {name!r}, the allow-list is {L!r}: decrypt_json (verify_all_recipients=False) returned a plaintext", cell)
+    except Exception as e:
+        if isinstance(name, str) and not isinstance(e, UnsupportedAlgorithmError):
+            return "must-reject", (f"C05:wrong-error-for-unsupported-algorithm:jwe:decrypt:general-any-recipient:{type(e).__name__}",
+                                   f"recipient alg {name!r} outside {L!r}: {type(e).__name__}: {e} instead of UnsupportedAlgorithmError", cell)
+        return "must-reject", None
+
+
 def run_cell(cell) -> tuple:
     kind, op, entry, names, style, L = cell["kind"], cell["op"], cell["entry"], cell["names"], cell["style"], cell["L"]
+    if kind == "jwe-any":
+        return run_any_recipient_cell(cell)
     if kind == "jws":
         out = jws_call(op, entry, names["alg"], style, L)
     else:
@@ -305,6 +333,10 @@ def matrix(part):
                     for op in ("encrypt", "decrypt"):
                         for entry in JWE_ENTRIES:
                             yield {"kind": "jwe", "op": op, "entry": entry, "names": dict(names), "style": style, "L": L, "shape": shape, "pos": pos}
+        for name in [a for a in jweplan.ALGS if a != "A128KW"] + ["a128kw", "A512KW", ""]:
+            for order in ("bad-last", "bad-first"):
+                yield {"kind": "jwe-any", "op": "decrypt", "entry": "general-any-recipient", "names": {"alg": name, "enc": "A128GCM", "zip": None}, "style": "registry",
+                       "L": ["A128KW", "A128GCM"], "shape": "subset-without", "pos": "alg", "order": order}
 
 
 # ------------------------------------------------------------------ part B: histories
